@@ -113,7 +113,7 @@ func c03(c *ctx) {
 
 func c04(c *ctx) {
 	cases := backtrackCases(c, tierN(c, 240, 5000), 16, false, false)
-	cfgs := []config{{name: "plain", v: vPlain, memo: true}, {name: "inline", v: vInline, memo: true}, {name: "nomemo", v: vPlain}, {name: "switch", v: vSwitch, memo: true}}
+	cfgs := []config{{name: "plain", v: vPlain, memo: true}, {name: "inline", v: vInline, memo: true}, {name: "nomemo", v: vPlain}, {name: "switch", v: vSwitch, memo: true}, {name: "treefirst", v: vPlain, memo: true, treeFirst: true}}
 	f := &family{c: c, tag: "c04", configs: cfgs, history: []string{"plain", "switch"}}
 	f.judge = func(cs *gcase, e entry, it *ref.Interp, refOK bool, refEnd int, res map[string]*corpus.Res) {
 		covAccumulate(c, it)
@@ -154,7 +154,7 @@ func c04(c *ctx) {
 	}
 	f.run(cases)
 	requireCov(c, "accepted_with_actions", "ref_action_discarded_seqfail", "ref_action_discarded_lookahead", "ref_action_reached_in_lookahead", "ref_capture_discarded_seqfail")
-	c.run.Rule = "cases: as C03 (shared prefixes with captures and actions, repetitions, lookahead, nested captures, action ids out of order across rules, non-ASCII text); every action is a probe p.act(id, text, begin, end); Execute() is called once after each successful parse, under default options, -inline, -switch and with memoisation off. " +
+	c.run.Rule = "cases: as C03 (shared prefixes with captures and actions, repetitions, lookahead, nested captures, action ids out of order across rules, non-ASCII text); every action is a probe p.act(id, text, begin, end); Execute() is called once after each successful parse (before — and in one configuration after — the syntax tree has been built and printed), under default options, -inline, -switch and with memoisation off. " +
 		"Oracle: the recorded trace equals the reference's: exactly the derivation's actions, once, left to right, with text/begin/end of the most recently completed capture preceding each in the derivation. " +
 		"distinct_nontrivial = distinct accepted (grammar, entry, input) with >=1 action on the derivation and >=1 action reached in a branch that was abandoned or inside a lookahead."
 	c.run.Assume("well-formed grammars; -inline parsers are entered through the first rule only")
